@@ -105,7 +105,8 @@ def mapReads (N : NestedSut V VOp) (m : MapT V) : String :=
   " rctx=" ++ showCtx' m.readCtx ++
   String.join (mapKeys.map (fun k =>
     let g := m.get k
-    " g" ++ toString k ++ "=" ++ (match g.val with | some v => "some:" ++ N.read v | none => "none") ++ ":" ++ showCtx' g)) ++
+    " g" ++ toString k ++ "=" ++ (match g.val with | some v => "some:" ++ N.read v | none => "none") ++ ":" ++ showCtx' g ++
+    " gk" ++ toString k ++ "=" ++ showBool g.val.isSome ++ ":" ++ showCtx' g)) ++
   " keys=[" ++ joinWith ";" (m.keys.map (fun c => toString c.val ++ ":" ++ showCtx' c)) ++ "]" ++
   " values=[" ++ joinWith ";" (m.values.map (fun c => N.read c.val ++ ":" ++ showCtx' c)) ++ "]" ++
   " iter=[" ++ joinWith ";" (m.iter.map (fun c => toString c.val.1 ++ ":" ++ N.read c.val.2 ++ ":" ++ showCtx' c)) ++ "]"
@@ -137,6 +138,22 @@ def showMapMV : Except MapMergeValidation Unit → String
   | .error .doubleSpentDot => "dsd"
   | .error .value => "value"
 
+/-- key-level specification: the Orswot-of-keys spec state for the key-level reading of the knowledge set -/
+def specMapKeys (U K : List (MapOpT VOp)) : String :=
+  let U' := U.map CMap.keyOp
+  let K' := K.map CMap.keyOp
+  if orswotWF U' && addClosed U' K' then
+    let s := specOrswotState K'
+    let ctx := showClock s.clock ++ "/" ++ showClock s.clock
+    "clock=" ++ showClock s.clock ++ " deferred=" ++ showDeferred s.deferred ++
+    " len=" ++ toString s.entries.size ++ ":" ++ ctx ++ " isempty=" ++ showBool s.entries.isEmpty ++ ":" ++ ctx ++
+    " rctx=" ++ ctx ++
+    String.join (mapKeys.map (fun k =>
+      " gk" ++ toString k ++ "=" ++ showBool (s.entries.get? k).isSome ++ ":" ++ showClock s.clock ++ "/" ++
+        showClock ((s.entries.get? k).getD ∅))) ++
+    " keys=[" ++ joinWith ";" (s.entries.l.map (fun p => toString p.1 ++ ":" ++ showClock s.clock ++ "/" ++ showClock p.2)) ++ "]"
+  else ""
+
 def mapOps (N : NestedSut V VOp) : CrdtOps (MapT V) (MapOpT VOp) where
   init := CMap.init
   gen := fun s a args => mapGen N s none a args
@@ -152,6 +169,13 @@ def mapOps (N : NestedSut V VOp) : CrdtOps (MapT V) (MapOpT VOp) where
   opDot := fun op => match op with
     | .up d _ _ => some (showDot d)
     | .rm _ _ => none
+  spec := specMapKeys
+  ok := fun U K op => match op with
+    | .up d _ _ => U.all (fun o' => match o' with
+        | .up d' k' op' => !(d'.actor = d.actor && d'.counter < d.counter) ||
+            K.any (fun x => match x with | .up d'' _ _ => d'' = d' | _ => false)
+        | _ => true)
+    | .rm _ _ => true
 
 end
 
